@@ -393,6 +393,22 @@ func runC13(c *Ctx) error {
 			}
 		}
 	}
+	// the same inside protected messages: unsupported payloads in front of the Encrypted payload (reference-built, valid checksum)
+	for i, n := 0, c.N(60, 3000); i < n; i++ {
+		k := genSkCase(rng, i)
+		innerB := okBody(implContainerEncode(k.m.At(2)))
+		if innerB == nil || len(innerB[0].B0()) > 4000 {
+			continue
+		}
+		inner := innerB[0].B0()
+		first := byte(0)
+		if len(k.m.At(2).List) > 0 {
+			first = byte(kindCode[k.m.At(2).At(0).Head()])
+		}
+		if err := evalPrefixedSK(c, k, inner, first, 16-len(inner)%16-1); err != nil {
+			return err
+		}
+	}
 	// several insertions, random positions
 	for i, n := 0, c.N(600, 30000); i < n; i++ {
 		var items []chainItem
